@@ -240,7 +240,9 @@ func (p *Parser) parseCallExpression(function Expression) Expression {
 func (p *Parser) parseIndexExpression(left Expression) Expression {
 	expression := &IndexExpression{Token: p.curToken, Left: left, Type: ObjectTypeList}
 
-	p.nextToken()
+	if !p.expectPeek(IDENT) {
+		return nil
+	}
 
 	expression.Index = p.parseIdentifier()
 
@@ -263,21 +265,29 @@ func (p *Parser) parseBetweenExpression(left Expression) Expression {
 		Range: [2]Expression{},
 	}
 
-	p.nextToken()
+	if !p.expectPeek(IDENT) {
+		return nil
+	}
+
 	expression.Range[0] = p.parseIdentifier()
 
 	if !p.expectPeek(AND) {
 		return nil
 	}
 
-	p.nextToken()
+	if !p.expectPeek(IDENT) {
+		return nil
+	}
+
 	expression.Range[1] = p.parseIdentifier()
 
 	return expression
 }
 
 func (p *Parser) parseInExpression(left Expression) Expression {
-	p.nextToken()
+	if !p.expectPeek(LPAREN) {
+		return nil
+	}
 
 	return &InExpression{
 		Token: p.curToken,
@@ -386,6 +396,11 @@ func (p *Parser) parseActions(token Token) []Expression {
 
 		otherUpdate := p.parseUpdateActionExpression()
 		if updateExpression, ok := otherUpdate.(*UpdateExpression); ok {
+			if len(updateExpression.Expressions) == 0 {
+				// a further clause keyword without any action
+				p.peekError(IDENT)
+			}
+
 			actions = append(actions, updateExpression.Expressions...)
 		}
 	}
